@@ -81,6 +81,8 @@ Sys(p, n, a, b, c, ret, errno, s, allocs) ==
                     b, [ino |-> c, acc |-> 1, pos |-> 0, cx |-> (s = "cx")])
           [] n = "fcntl" /\ b = F_SETFD /\ ret = 0 /\ a \in DOMAIN t ->
                [t EXCEPT ![a].cx = (c % 2 = 1)]
+          [] n = "fcntl" /\ b \in {0, 1030} /\ ret >= 0 /\ a \in DOMAIN t ->          \* F_DUPFD / F_DUPFD_CLOEXEC
+               With(t, ret, [t[a] EXCEPT !.cx = (b = 1030)])
           [] n = "close" /\ ret = 0 -> Without(t, a)
           [] n = "dup2" /\ ret >= 0 /\ a # b /\ a \in DOMAIN t ->
                With(t, b, [t[a] EXCEPT !.cx = FALSE])
@@ -169,9 +171,7 @@ WiringOk(rt, held) ==
 
 \* descriptors above 2 the new image may legitimately see: whatever was inheritable in the harness
 \* before the library did anything; never an end of a pipe the library created
-NoLeak(rt) ==
-  \A fd \in DOMAIN rt : (fd > 2 /\ rt[fd].ino \in libpipes) =>
-    \E i \in (DOMAIN rt) \cap (0..2) : rt[i].ino = rt[fd].ino /\ rt[i].acc = rt[fd].acc
+NoLeak(rt) == \A fd \in DOMAIN rt : fd > 2 => rt[fd].ino \notin libpipes
 \* and the standard streams themselves are library pipes only where a pipe (or a merge onto one) was asked for
 StdNotStray(rt) ==
   \A i \in 0..2 : (i \in DOMAIN rt /\ rt[i].ino \in libpipes) =>
